@@ -81,6 +81,31 @@ def gen_shape(rng, depth, allow_enum=True, weights=None, codec_safe=False):
         fs[rng.randrange(len(fs))] = Fd('Pi')
     return Sh('S', fs)
 
+def fixed_shapes(codec_safe=False):
+    """shapes that every derive-level workload contains, whatever the seed (random shapes reach a given combination only by luck):
+    (1) every recursive strategy under every recursive strategy - a nested struct / optional nested struct / recursive map in either mode whose
+        value type again has plain, optional, skipped, nested, optional nested, ordered, unordered, flat-map and recursive-map fields;
+    (2) every ordered pair of ADJACENT field kinds (a de Bruijn sequence over the kinds, cut into structs of about 16 fields): templates
+        that look at a neighbouring field, or whose generated arms could capture one another's bindings, show only for particular neighbours"""
+    c_l, c_u, c_m, c_n = ('0', '0', '0', '0') if codec_safe else ('1', '2', '1', '1')
+    inner = f"Pi,Po,K0,RS(Pi,K0),QS(Pi,Po),L0,U0,M0,N00S(Pi,K0),N10S(Po)"
+    inner2 = f"Po,K3,QS(Po,K0),RS(Pe,Pi),L{c_l},U{c_u},M{c_m},N0{c_n}S(Pi),Pe"
+    out = [f"S(RS({inner}),QS({inner}),N00S({inner}),N10S({inner}))",
+           f"S(QS({inner2}),N0{c_n}S({inner2}),RS({inner2}),N1{c_n}S({inner2}))"]
+    kinds = ['Pi', 'Po', 'Pe', 'K0', 'K3', 'RS(Pi,Po)', 'QS(Pi,K0)', 'L0', 'U0', 'M0', 'N00S(Pi)']
+    # Eulerian circuit of the complete directed graph with loops on the kinds: every ordered pair occurs as neighbours exactly once
+    n = len(kinds); nxt = [0] * n; seq = []
+    def visit(u):
+        while nxt[u] < n:
+            v = nxt[u]; nxt[u] += 1; visit(v)
+        seq.append(u)
+    visit(0); seq.reverse()
+    chunk = 16
+    for i in range(0, len(seq) - 1, chunk):
+        part = seq[i:i + chunk + 1]
+        out.append('S(' + ','.join(kinds[k] for k in part) + ')')
+    return [parse_shape(t) for t in out]
+
 # ------------------------------------------------------------------ values (python repr: int | None-marker | ...)
 # python value forms: ('a', int) ('n',) ('s', v) ('q', [ints]) ('m', [(k,v)]) ('r', [(k, v)]) ('t', [v...])
 ENUM_ATOMS = [0, 1, 4, 7, 2, 5, 8, 31, 32]
